@@ -176,4 +176,11 @@ Section PP.
     destruct (route V cmp r m rawpath ov') as [|[e' vars'| |allow|]]; try discriminate.
     intros [= -> -> ->]. apply Hn. reflexivity.
   Qed.
+
+  (* 7. raw paths that differ only by repeated or trailing slashes are handled identically *)
+  Theorem handle_slashes_irrelevant (p : policy V) (r : node V) m p1 p2 h :
+    slash_equiv p1 p2 -> handle p r m p1 h = handle p r m p2 h.
+  Proof.
+    intros H. unfold Pipeline.handle, route. rewrite (slashes_irrelevant p1 p2 H). reflexivity.
+  Qed.
 End PP.
